@@ -11,7 +11,7 @@ META = dict(
 
 
 def run(ctx):
-    n = 60 if ctx.tier == "quick" else 1000
+    n = 60 if ctx.tier == "quick" else 3000
     fams = [pc.family_matrix, pc.family_routing, ("gen", "gen.p2b1", n), ("gen", "gen.idem", n),
             lambda: pc.family_faults(False, ctx.seed), lambda: pc.family_faults(True, ctx.seed),
             lambda: pc.family_gates(True), pc.family_idem_clean, pc.family_retry0, lambda: pc.family_resubmit(False), lambda: pc.family_resubmit(True)]
